@@ -44,8 +44,8 @@ def _minmax_empty(prog, vals):
 
 @excl("KF-tensordot-int-dtype")
 def _tensordot_small_int(prog, vals):
-    """tensordot/matmul whose NumPy result dtype is an integer narrower than 8 bytes."""
-    return any(s["op"] in ("tensordot", "matmul") and r.dtype.kind in "iub" and r.dtype.itemsize < 8 for s, a, r in _stmts(prog, vals))
+    """tensordot/matmul/contracting einsum whose NumPy result dtype is an integer narrower than 8 bytes."""
+    return any(s["op"] in ("tensordot", "matmul", "einsum_perm") and r.dtype.kind in "iub" and r.dtype.itemsize < 8 for s, a, r in _stmts(prog, vals))
 
 
 @excl("KF-argext-ties-axis-none")
